@@ -7,6 +7,7 @@ package h21
 
 import (
 	"crypto/tls"
+	"syscall"
 	"go.nanomsg.org/mangos/v3"
 	_ "go.nanomsg.org/mangos/v3/transport/ipc"
 	_ "go.nanomsg.org/mangos/v3/transport/tcp"
@@ -111,6 +112,15 @@ func VH21a_listener() {
 		verif.Assert(h.attached == 0 && !c1.Closed, lab+"/silent-peer")
 	}
 	// a later well-behaved peer is accepted regardless (C12, C16: no delay from the silent one)
+	// unix-domain connections carry the peer's credentials (SO_PEERCRED): three arbitrary, pairwise different ids
+	var cred *syscall.Ucred
+	if _, _, ipc := scheme(); ipc {
+		pid, uid, gid := verif.Int("peer-pid"), verif.Int("peer-uid"), verif.Int("peer-gid")
+		verif.Assume(verif.And(verif.And(pid >= 1, pid < 1<<22), verif.And(verif.And(uid >= 0, uid < 1<<31), verif.And(gid >= 0, gid < 1<<31))))
+		verif.Assume(verif.And(uid != gid, verif.And(pid != uid, pid != gid)))
+		cred = &syscall.Ucred{Pid: int32(pid), Uid: uint32(uid), Gid: uint32(gid)}
+		vnet.NextCred = cred
+	}
 	c2 := L.Connect("c2")
 	c2.PeerSend(vnet.SPHeader(self))
 	verif.Quiesce()
@@ -171,6 +181,19 @@ func VH21a_listener() {
 			verif.Fail("C13/tcp/local-addr-option-missing")
 		}
 		verif.Assert(p.ID() != 0 && p.ID()&0x80000000 == 0, "C13/tcp/pipe-id-not-a-non-zero-31-bit-value")
+		if cred != nil {
+			for _, o := range []struct {
+				name string
+				want int
+			}{{mangos.OptionPeerPID, int(cred.Pid)}, {mangos.OptionPeerUID, int(cred.Uid)}, {mangos.OptionPeerGID, int(cred.Gid)}} {
+				v, err := p.GetOption(o.name)
+				verif.Assert(err == nil, "C13/ipc/"+o.name+"/missing")
+				if err == nil {
+					verif.Assert(v.(int) == o.want, "C13/ipc/"+o.name+"/does-not-describe-the-peer")
+				}
+			}
+			verif.Reach("peer-credentials")
+		}
 		if isTLS() {
 			// read-only pipe option: the TLS state of this very connection
 			if v, err := p.GetOption(mangos.OptionTLSConnState); err == nil {
